@@ -70,7 +70,7 @@ fn list_graph(n: usize) -> Vec<[ST; 3]> {
     g
 }
 
-pub const OPS: [&str; 50] = [
+pub const OPS: [&str; 56] = [
     "fast-ds-match-all", "fast-ds-match-g", "fast-ds-match-gs", "fast-ds-match-o", "fast-ds-match-po", "fast-ds-match-closure", "light-ds-match-closure", "light-ds-match-g", "light-ds-match-o",
     "fast-g-match-closure", "fast-g-match-s", "fast-g-match-o", "light-g-match-closure", "light-g-match-s",
     "fast-ds-insert-remove", "light-ds-insert-remove", "fast-g-insert-remove",
@@ -78,6 +78,7 @@ pub const OPS: [&str; 50] = [
     "nt-parse-doc", "nq-parse-doc", "turtle-parse-doc", "trig-parse-doc", "xml-parse-doc", "jsonld-parse-doc",
     "jsonld-ser-list", "turtle-pretty-ser-list", "turtle-parse-list", "jsonld-ser-graphs", "trig-pretty-ser-graphs",
     "nt-parse-comments", "nq-parse-blank-lines", "turtle-parse-prefixes", "trig-parse-prefixes", "xml-parse-comments", "gtrig-parse-prefixes",
+    "source-filter-iter", "source-filter-map-iter", "source-map-iter", "parser-filter-map-iter", "sparql-bgp-join", "sparql-bgp-join3",
     "sparql-graph-var", "sparql-bgp-filter", "sparql-order-by", "sparql-distinct-union", "c14n-doc", "iso-doc",
 ];
 
@@ -291,13 +292,42 @@ fn run_op(op: &str, n: usize) -> (Result<usize, String>, usize) {
                 Ok(k)
             })
         }
-        "sparql-graph-var" | "sparql-bgp-filter" | "sparql-order-by" | "sparql-distinct-union" => {
+        // Source adapters bridged to iterators: long runs of rejected items
+        "source-filter-iter" | "source-filter-map-iter" | "source-map-iter" | "parser-filter-map-iter" => {
+            let op = op.to_string();
+            let qs: Vec<[ST; 3]> = quads(n, false).into_iter().map(|q| q.0).collect();
+            let doc = nt_doc(n, false);
+            let lastp = ex("s", last);
+            measured(move || {
+                let src = qs.iter().cloned().map(Ok::<_, std::convert::Infallible>);
+                let keep = |t: &[ST; 3]| Term::eq(&t[0], &lastp);
+                Ok(match op.as_str() {
+                    "source-filter-iter" => {
+                        // (a filtered source is not an iterator: it is drained through the Source API)
+                        let mut k = 0;
+                        src.filter_triples(|t| keep(t)).for_each_triple(|_| k += 1).map_err(|e| e.to_string())?;
+                        k
+                    }
+                    "source-filter-map-iter" => src.filter_map_triples(|t| if keep(&t) { Some(t) } else { None }).into_iter().filter(|r| r.is_ok()).count(),
+                    "source-map-iter" => src.map_triples(|t| t[0].clone()).into_iter().filter(|r| r.is_ok()).count(),
+                    _ => sophia_turtle::parser::nt::parse_str(&doc)
+                        .filter_map_triples(|t| if Term::eq(&t.s(), &lastp) { Some(t.s().into_term::<ST>()) } else { None })
+                        .into_iter()
+                        .filter(|r| r.is_ok())
+                        .count(),
+                })
+            })
+        }
+        "sparql-graph-var" | "sparql-bgp-filter" | "sparql-order-by" | "sparql-distinct-union" | "sparql-bgp-join" | "sparql-bgp-join3" => {
             use sophia_api::sparql::{SparqlDataset, SparqlResult};
             let qs = quads(n, op == "sparql-graph-var");
             let q = match op {
                 "sparql-graph-var" => format!("SELECT ?g ?s {{ GRAPH ?g {{ ?s ?p <http://ex/o{last}> }} }}"),
                 "sparql-bgp-filter" => format!("SELECT ?s {{ ?s ?p ?o FILTER(?o = <http://ex/o{last}>) }}"),
                 "sparql-order-by" => "SELECT ?s { ?s ?p ?o } ORDER BY DESC(?o) ?s".to_string(),
+                // many matches of the first pattern(s), few solutions of the join
+                "sparql-bgp-join" => format!("SELECT ?s {{ ?s ?p ?o . ?s <http://ex/p{}> <http://ex/o{last}> }}", last % 7),
+                "sparql-bgp-join3" => format!("ASK {{ ?s ?p ?o . ?s ?q ?o2 . ?s <http://ex/p{}> <http://ex/nothing> }}", last % 7),
                 _ => "SELECT DISTINCT ?p { { ?s ?p ?o } UNION { ?o ?p ?s } }".to_string(),
             };
             measured(move || {
@@ -312,6 +342,7 @@ fn run_op(op: &str, n: usize) -> (Result<usize, String>, usize) {
                         }
                         Ok(k)
                     }
+                    SparqlResult::Boolean(b) => Ok(b as usize),
                     _ => Err("not bindings".into()),
                 }
             })
@@ -342,7 +373,7 @@ fn is_last_s(last: usize) -> impl Fn(SimpleTerm) -> bool {
 fn describe_idx(idx: usize, sizes: &[usize]) -> (String, usize) {
     let op = OPS[idx / sizes.len()];
     let n = sizes[idx % sizes.len()];
-    let slow = op.contains("pretty-ser-doc") || op.contains("pretty-ser-list") || op.contains("pretty-ser-graphs") || op == "sparql-graph-var";
+    let slow = op.contains("pretty-ser-doc") || op.contains("pretty-ser-list") || op.contains("pretty-ser-graphs") || op == "sparql-graph-var" || op.starts_with("sparql-bgp-join");
     (op.to_string(), if slow { (n / 10).max(50) } else { n })
 }
 
